@@ -137,8 +137,20 @@ def digest_forms(ctx):
                 found=f"{[repr(o_.value)[:200] for o_ in go]}", key_extra="get_manifest_digest")
     e = one(None)
     if e is not None:
-        R.check("C05-D1a digest forms", e.args[2] == Const(""), "no bytes given: placeholder (filled by the refreshers, C01)", mod=fi.module,
-                node=e.node, function=fq, expected="''", found=repr(e.args[2])[:80], key_extra="none")
+        g_none = generic.norm_guards(stores[None][0][1])
+        absent = (App("in", (Const("suit-digest-bytes"), OBJ)), False) in g_none
+        R.check("C05-D1a digest forms", e.args[2] == Const("") and absent, "no bytes given: placeholder (filled by the refreshers, C01)", mod=fi.module,
+                node=e.node, function=fq, expected="'' exactly when the description has no suit-digest-bytes", found=f"{e.args[2]!r} under {[(repr(c)[:60], p_) for c, p_ in g_none][:3]}"[:240], key_extra="none")
+    # the reference forms apply exactly when the bytes entry is a dict (a hex string is taken as it is)
+    isd = App("isinstance", (D, Ref("builtin", "dict")))
+    for form_, lst_ in stores.items():
+        if form_ is None:
+            continue
+        for st_, g_ in lst_:
+            gn = generic.norm_guards(g_)
+            if (isd, True) not in gn:
+                R.fail("C05-D1a digest forms", f"{form_}: applies only when suit-digest-bytes is a dict", mod=fi.module, node=st_.node or fi.node, function=fq,
+                       expected="guarded by isinstance(obj['suit-digest-bytes'], dict)", found=f"{[(repr(c)[:60], p_) for c, p_ in gn][:4]}"[:240], key_extra=f"{form_}|dict")
     extra = set(stores) - {"file", "file_direct", "raw", "envelope", None}
     R.rule("C05-D1b no other digest form", 2, "unknown forms are rejected; result built from the completed description")
     rej = [x for x in outs if x.kind == "raise" and any("'file_direct'" in repr(c) for c in x.conds)]
